@@ -2845,7 +2845,10 @@ class SFTPClientHandler(SFTPHandler):
         self.logger.debug1('Received version=%d%s', version,
                            ', extensions:' if rcvd_extensions else '')
 
-        self._log_extensions(rcvd_extensions)
+        try:
+            self._log_extensions(rcvd_extensions)
+        except PacketDecodeError as exc:
+            raise SFTPBadMessage(str(exc)) from None
 
         self._version = version
 
@@ -6931,7 +6934,11 @@ class SFTPServerHandler(SFTPHandler):
         self.logger.debug1('Received init, version=%d%s', version,
                            ', extensions:' if rcvd_extensions else '')
 
-        self._log_extensions(rcvd_extensions)
+        try:
+            self._log_extensions(rcvd_extensions)
+        except PacketDecodeError as exc:
+            await self._cleanup(SFTPBadMessage(str(exc)))
+            return
 
         self._version = min(version, self._version)
 
